@@ -33,7 +33,9 @@ SITES = {
 
 # ----------------------------------------------------------------------------------------------- systems and bases
 _CS = {}
-SHAPES = {"q": [2], "t": [3], "qq": [2, 2], "qt": [2, 3]}
+SHAPES = {"q": [2], "t": [3], "qq": [2, 2], "qt": [2, 3], "tq": [2, 3]}
+# ElementalSystem names; "tq": the systems are handed over as (qubit named 7, qutrit named 3): CompositeSystem orders by name -> qutrit x qubit
+NAMES = {"tq": [7, 3]}
 FLAG_KINDS = ["named", "nggm"]
 GENERIC_KINDS = ["unnorm", "nherm", "herm", "perm", "mixed"]
 
@@ -78,7 +80,8 @@ class CS:
         from quara.objects.elemental_system import ElementalSystem
         dims = SHAPES[shape]
         self.shape, self.kind = shape, kind
-        self.c = CompositeSystem([ElementalSystem(i, elem_basis(kind, dm)) for i, dm in enumerate(dims)])
+        names = NAMES.get(shape, list(range(len(dims))))
+        self.c = CompositeSystem([ElementalSystem(nm, elem_basis(kind, dm)) for nm, dm in zip(names, dims)])
         self.d = int(self.c.dim)
         self.B = [np.asarray(b.toarray() if hasattr(b, "toarray") else b, dtype=complex) for b in self.c.basis()]
         self.flag = bool(self.c.is_orthonormal_hermitian_0thprop_identity)
@@ -91,6 +94,15 @@ class CS:
         G = self.M.conj().T @ self.M
         self.orthonormal = bool(np.allclose(G, np.eye(self.d ** 2), atol=1e-12))
         self.hermitian = all(np.allclose(b, b.conj().T, atol=0) for b in self.B)
+
+
+def equal_csys(cs):
+    """a NEW CompositeSystem (new ElementalSystems, newly generated bases) equal to cs.c but not identical to it"""
+    from quara.objects.composite_system import CompositeSystem
+    from quara.objects.elemental_system import ElementalSystem
+    dims = SHAPES[cs.shape]
+    names = NAMES.get(cs.shape, list(range(len(dims))))
+    return CompositeSystem([ElementalSystem(nm, elem_basis(cs.kind, dm)) for nm, dm in zip(names, dims)])
 
 
 def get_cs(shape, kind):
@@ -383,6 +395,9 @@ def relayout(arr, layout):
     arr = np.array(arr, dtype=np.float64)
     if layout == "F":
         return np.asfortranarray(arr)
+    if layout == "ro":
+        arr = np.array(arr, dtype=np.float64); arr.setflags(write=False)
+        return arr
     if layout == "view":
         big = np.full(tuple(2 * n + 1 for n in arr.shape), 7.25)
         sl = tuple(slice(1, None, 2) for _ in arr.shape)
@@ -391,7 +406,7 @@ def relayout(arr, layout):
     return arr
 
 
-def build(cs, t, data, required=False, layout="C", cfg=0):
+def build(cs, t, data, required=False, layout="C", cfg=0, csys=None):
     """layout / cfg: memory layout of the array arguments and non-default object configuration (projection / parametrisation options,
     eps_proj_physical, eps_truncate_imaginary_part, MProcess.eps_zero) -- none of which a physicality verdict may depend on"""
     from quara.objects.state import State
@@ -399,15 +414,16 @@ def build(cs, t, data, required=False, layout="C", cfg=0):
     from quara.objects.gate import Gate
     from quara.objects.mprocess import MProcess
     kw = dict(CONFIGS[cfg % len(CONFIGS)])
+    c_ = cs.c if csys is None else csys       # csys: an equal-but-not-identical CompositeSystem instance
     if t == "state":
-        return State(cs.c, relayout(data, layout), is_physicality_required=required, **kw)
+        return State(c_, relayout(data, layout), is_physicality_required=required, **kw)
     if t == "povm":
-        return Povm(cs.c, [relayout(v, layout) for v in data], is_physicality_required=required, **kw)
+        return Povm(c_, [relayout(v, layout) for v in data], is_physicality_required=required, **kw)
     if t == "gate":
-        return Gate(cs.c, relayout(data, layout), is_physicality_required=required, **kw)
+        return Gate(c_, relayout(data, layout), is_physicality_required=required, **kw)
     if cfg % len(CONFIGS):
         kw["eps_zero"] = [1e-8, 0.3, 0.0][cfg % 3]
-    return MProcess(cs.c, [relayout(h, layout) for h in data], is_physicality_required=required, **kw)
+    return MProcess(c_, [relayout(h, layout) for h in data], is_physicality_required=required, **kw)
 
 
 # The runner re-evaluates a sample of the short driver requests inside Coq with vm_compute (extraction cross-check).
@@ -536,7 +552,8 @@ def chk_obj(ctx, case):
             ctx.violation(sub, "MProcess.__init__", "basis-flag-guard", "constructor on a non-(orthonormal, Hermitian, identity-first) basis: raised=%s, model %s" % (raised, mres["raises"]), case)
         return
     lay, cfg, eta = case.get("layout", "C"), int(case.get("cfg", 0)), float(case.get("eta", ETA))
-    obj = build(cs, t, data, required=False, layout=lay, cfg=cfg)
+    csys = equal_csys(cs) if case.get("fresh") else None      # an equal-but-not-identical CompositeSystem instance
+    obj = build(cs, t, data, required=False, layout=lay, cfg=cfg, csys=csys)
     want = 1 if (t == "gate" and cs.d <= 3) else 0
     has_rtol = t in SLACK_SITE
     # ---- expectations (model with rtol = 0); the rtol = 1e-5 variants are evaluated lazily, only to classify a disagreement
@@ -594,6 +611,16 @@ def chk_obj(ctx, case):
     else:
         judge(ctx, sub, t, "eq", "is_sum_tp(atol)", obj.is_sum_tp(a), e0["eq"], None, case)
         judge(ctx, sub, t, "ineq", "is_cp(atol)", obj.is_cp(a), e0["ineq"], None, case)
+    # the same object reached by the other routes (copy(); generate_from_var of its own variables when the equality constraint is NOT
+    # parametrised away, so that var = all the data): same verdicts
+    routes = [("copy()", obj.copy())]
+    if not obj.on_para_eq_constraint:
+        routes.append(("generate_from_var(to_var())", obj.generate_from_var(obj.to_var(), is_physicality_required=False)))
+    for rname, ro in routes:
+        for nm, got in (("eq", ro.is_eq_constraint_satisfied(a)), ("ineq", ro.is_ineq_constraint_satisfied(a)), ("phys", ro.is_physical(a, a))):
+            if e0[nm] is not None and bool(got) != e0[nm]:
+                ctx.violation(sub, SITES[t][nm], "verdict-differs-by-construction-route", "%s on the object obtained by %s: %s, exact model %s (atol=%g, class %s, basis %s/%s)" % (
+                    SITES[t][nm], rname, bool(got), e0[nm], a, case["cls"], case["shape"], case["basis"]), case)
     # loosening the tolerance never turns a true verdict false: evaluated directly on the implementation over the whole grid
     # (exact in floating point too: the same trace / sum / eigenvalues are compared with a growing threshold; theorems C01_*_monotone)
     grid = sorted(set(ATOLS + [a, a2]))
@@ -634,7 +661,7 @@ def make_cases(ctx, t, plan):
             if narrow:
                 kk = [0.9, 1.1, 0.9, 1.1, 0.4, 3.0][rng.randrange(6)]
             case = {"type": t, "shape": shape, "basis": kind, "cls": cls, "atol": a, "atol2": a2, "eta": 0.05 if narrow else ETA,
-                    "layout": ["C", "F", "view", "C"][rng.randrange(4)], "cfg": rng.randrange(4),
+                    "layout": ["C", "F", "view", "ro"][rng.randrange(4)], "cfg": rng.randrange(4), "fresh": i % 4 == 2 and shape in ("q", "t", "qq", "tq"),
                     "k": kk if cls in VIOLATE else None,
                     "sign": rng.choice([1, 1, -1]) if cls in ("tr_violate", "sum_diag", "tp_violate") else 1,
                     "m": rng.randint(2, 5), "seed": rng.randrange(2 ** 31),
@@ -645,14 +672,14 @@ def make_cases(ctx, t, plan):
 
 def sub_state(ctx):
     allk = FLAG_KINDS + GENERIC_KINDS + ["comp"]
-    plan = [("q", allk, nn(ctx, 96, 400)), ("t", allk, nn(ctx, 72, 400)), ("qq", allk, nn(ctx, 48, 300)), ("qt", allk, ctx.n(32, 400))]
+    plan = [("q", allk, nn(ctx, 96, 400)), ("t", allk, nn(ctx, 72, 400)), ("qq", allk, nn(ctx, 48, 300)), ("qt", allk, ctx.n(24, 300)), ("tq", FLAG_KINDS + ["unnorm", "perm"], ctx.n(8, 100))]
     cases = make_cases(ctx, "state", plan)
     ctx.sample("state", cases[3]); ctx.run_cases("state", chk_obj, cases)
 
 
 def sub_povm(ctx):
     allk = FLAG_KINDS + GENERIC_KINDS + ["comp"]
-    plan = [("q", allk, nn(ctx, 64, 400)), ("t", allk, nn(ctx, 56, 400)), ("qq", allk, nn(ctx, 32, 300)), ("qt", allk, ctx.n(24, 300))]
+    plan = [("q", allk, nn(ctx, 64, 400)), ("t", allk, nn(ctx, 56, 400)), ("qq", allk, nn(ctx, 32, 300)), ("qt", allk, ctx.n(16, 200)), ("tq", FLAG_KINDS + ["unnorm", "perm"], ctx.n(8, 100))]
     cases = make_cases(ctx, "povm", plan)
     ctx.sample("povm", cases[3]); ctx.run_cases("povm", chk_obj, cases)
 
@@ -897,41 +924,66 @@ def call_verdict(obj, fn, a_eq, a_ineq, key):
     return bool(f(a_ineq if key in ("ineq", "herm") else a_eq))
 
 
+def poke(obj, t):
+    """call the accessors / converters of the object (results discarded, never modified): none of them may influence a later verdict"""
+    import warnings
+    with warnings.catch_warnings(), np.errstate(all="ignore"):
+        warnings.simplefilter("ignore")
+        _poke(obj, t)
+
+
+def _poke(obj, t):
+    obj.dim, obj.composite_system, obj.is_physicality_required, obj.on_para_eq_constraint, obj.eps_proj_physical
+    obj.to_var(); obj.to_stacked_vector()
+    if not obj.is_physicality_required:          # copy() re-runs the constructor's physicality check at the Settings value now in force
+        obj.copy()
+    if t == "state":
+        obj.vec; obj.to_density_matrix(); obj.to_density_matrix_with_sparsity(); obj.calc_eigenvalues()
+    elif t == "povm":
+        obj.vecs; obj.matrices(); obj.matrices_with_sparsity(); obj.matrix(0); obj.calc_eigenvalues(); obj.num_outcomes; obj._sum_matrix()
+    elif t == "gate":
+        obj.hs; obj.to_choi_matrix(); obj.to_choi_matrix_with_sparsity(); obj.to_kraus_matrices(); obj.to_process_matrix(); obj.get_basis()
+    else:
+        obj.hss; obj.hs(0); obj.num_outcomes; obj.shape; obj.to_choi_matrix(0); obj.to_kraus_matrices(0); obj.mode_sampling
+
+
 def chk_history(ctx, case):
     from quara.settings import Settings
     t = case["type"]; cs = get_cs(case["shape"], case["basis"])
     data = gen_hist_data(cs, case)
-    exp = {}
+    lay = case.get("layout", "C")
+    cls_name = {"state": "State", "povm": "Povm", "gate": "Gate", "mprocess": "MProcess"}[t]
+    other_c = equal_csys(cs) if case.get("fresh") else None       # the fresh comparison objects live on an equal, NOT identical CompositeSystem
+    counters = {"det": 0, "steps": 0}
 
-    def expect(tol):             # model verdicts at one tolerance (both constraints), None = inside the ambiguity band
-        if tol not in exp:
-            exp[tol] = band(ctx, cs, t, data, tol, tol, 0.0, False)[0]
-        return exp[tol]
+    def make_expected(dat):
+        exp = {}
 
-    def expected(key, te, ti):
-        if key in ("ineq", "herm"):
-            return expect(ti)[key]
-        if key == "eq":
-            return expect(te)["eq"]
-        e, i = expect(te)["eq"], expect(ti)["ineq"]
-        if e is False or i is False:
-            return False
-        return None if (e is None or i is None) else True
-    old = Settings.get_atol()
-    steps = case["steps"]
-    ndet = 0
-    try:
-        s0 = float(case["settings0"])
-        Settings.set_atol(s0)
-        req = bool(case["required"]) and expected("phys", s0, s0) is True      # the constructor's implicit query (must not raise: physical at s0)
-        obj = build(cs, t, data, required=req, layout=case.get("layout", "C"), cfg=int(case.get("cfg", 0)))   # the fresh objects below: default layout / configuration
+        def expect(tol):             # model verdicts at one tolerance (both constraints), None = inside the ambiguity band
+            if tol not in exp:
+                exp[tol] = band(ctx, cs, t, dat, tol, tol, 0.0, False)[0]
+            return exp[tol]
+
+        def expected(key, te, ti):
+            if key in ("ineq", "herm"):
+                return expect(ti)[key]
+            if key == "eq":
+                return expect(te)["eq"]
+            e, i = expect(te)["eq"], expect(ti)["ineq"]
+            if e is False or i is False:
+                return False
+            return None if (e is None or i is None) else True
+        return expected
+
+    def run_steps(obj, dat, steps, expected, phase):
+        """returns False after reporting a violation"""
         for n, (fi, mode, tol, tol2, setting) in enumerate(steps):
             fn, key = HIST_FNS[t][fi % len(HIST_FNS[t])]
             Settings.set_atol(float(setting))
             if Settings.get_atol() != float(setting):
                 ctx.violation("history", "Settings.set_atol", "setting-not-stored", "after Settings.set_atol(%r) Settings.get_atol() returns %r" % (float(setting), Settings.get_atol()), case)
-                return
-            if n == 0:          # a non-float argument is rejected and leaves the setting unchanged (C01_gen_settings_guard_and_purity)
+                return False
+            if n == 0 and phase == "queries":          # a non-float argument is rejected and leaves the setting unchanged (C01_gen_settings_guard_and_purity)
                 for badv in (1, None, "1e-3"):
                     try:
                         Settings.set_atol(badv); rej = False
@@ -940,7 +992,9 @@ def chk_history(ctx, case):
                     if not rej or Settings.get_atol() != float(setting):
                         ctx.violation("history", "Settings.set_atol", "non-float-accepted", "Settings.set_atol(%r): rejected=%s, get_atol() afterwards %r (was %r)" % (badv, rej, Settings.get_atol(), float(setting)), case)
                         Settings.set_atol(float(setting))
-                        return
+                        return False
+            if n % 5 == 3:
+                poke(obj, t)                     # getters between the queries
             # tolerance in force for the equality / the inequality part of this call
             if mode == "none":
                 a_eq = a_in = None; te = ti = float(setting)
@@ -953,30 +1007,62 @@ def chk_history(ctx, case):
             if key != "phys" and mode in ("eq-only", "ineq-only"):
                 a_eq = a_in = float(tol); te = ti = float(tol)
             got = call_verdict(obj, fn, a_eq, a_in, key)
-            fresh = call_verdict(build(cs, t, data, required=False), fn, a_eq, a_in, key)
+            fresh = call_verdict(build(cs, t, dat, required=False, csys=other_c), fn, a_eq, a_in, key)
             e = expected(key, te, ti)
-            site = "%s.%s" % ({"state": "State", "povm": "Povm", "gate": "Gate", "mprocess": "MProcess"}[t], fn)
-            desc = "step %d of the history: %s(%s) with Settings atol=%g in force (tolerance in force: eq %g, ineq %g)" % (
-                n, fn, "" if mode == "none" else ", ".join(str(x) for x in ((a_eq, a_in) if key == "phys" else (a_eq if key == "eq" else a_in,))), float(setting), te, ti)
+            site = "%s.%s" % (cls_name, fn)
+            desc = "step %d of the history (%s): %s(%s) with Settings atol=%g in force (tolerance in force: eq %g, ineq %g)" % (
+                n, phase, fn, "" if mode == "none" else ", ".join(str(x) for x in ((a_eq, a_in) if key == "phys" else (a_eq if key == "eq" else a_in,))), float(setting), te, ti)
+            counters["steps"] += 1
             if got != fresh:
                 ctx.violation("history", site, "verdict-depends-on-query-history",
-                              "%s: the object with a history answers %s, a fresh equal object asked the same single question answers %s (exact model: %s); the verdict is not a function of (object, tolerance in force)" % (desc, got, fresh, e), case)
-                return
+                              "%s: the object with a history answers %s, a fresh equal object asked the same single question answers %s (exact model: %s); the verdict is not a function of (object value, tolerance in force)" % (desc, got, fresh, e), case)
+                return False
             if e is not None:
-                ndet += 1
+                counters["det"] += 1
                 if got != e:
                     ctx.violation("history", site, "verdict-mismatch", "%s: answer %s, exact model at the tolerance in force says %s" % (desc, got, e), case)
+                    return False
+        return True
+    old = Settings.get_atol()
+    steps = case["steps"]
+    try:
+        s0 = float(case["settings0"])
+        Settings.set_atol(s0)
+        expected = make_expected(data)
+        req = bool(case["required"]) and expected("phys", s0, s0) is True      # the constructor's implicit query (must not raise: physical at s0)
+        obj = build(cs, t, data, required=req, layout=lay, cfg=int(case.get("cfg", 0)))   # the fresh objects: default layout / configuration
+        if not run_steps(obj, data, steps, expected, "queries"):
+            return
+        # ---- the caller changes the data IN PLACE through the array the object holds (the one handed to the constructor / returned by the
+        #      accessor), then asks again: the answers must be those of the NEW value (no verdict may survive from the old one)
+        if case.get("mutate") and t in ("state", "gate", "mprocess") and lay != "ro":
+            # new value: both defects 100 times larger; probed at 10x the OLD defects, where the old value passes and the new one fails
+            data2 = gen_hist_data(cs, dict(case, seed=case["seed"] + 17, de=100.0 * float(case["de"]), di=100.0 * float(case["di"])))
+            p_eq, p_in = 10.0 * abs(float(case["de"])), 10.0 * float(case["di"])
+            held = [obj.vec] if t == "state" else ([obj.hs] if t == "gate" else list(obj.hss))
+            new = [data2] if t != "mprocess" else list(data2)
+            if len(held) == len(new) and all(h.flags.writeable for h in held):
+                for h, v2 in zip(held, new):
+                    h[...] = v2
+                nf = len(HIST_FNS[t])
+                setts = []
+                for st_ in steps:
+                    if st_[4] not in setts:
+                        setts.append(st_[4])
+                steps2 = ([[fi, "none", None, None, sv] for sv in (p_eq, p_in) for fi in range(nf)]
+                          + [[fi, "arg", p_eq, p_in, setts[0]] for fi in range(nf)] + [[fi, "arg", p_in, p_eq, setts[-1]] for fi in range(nf)])
+                if not run_steps(obj, data2, steps2, make_expected(data2), "after in-place change of the held array"):
                     return
     finally:
         Settings.set_atol(old)
-    ctx.count("history", key=(t, case["shape"], case["basis"], case["seed"]), nontrivial=ndet >= len(steps) // 2,
+    ctx.count("history", key=(t, case["shape"], case["basis"], case["seed"]), nontrivial=counters["det"] >= counters["steps"] // 2,
               label="%s:%s,required=%s" % (t, case["shape"], req))
 
 
 def sub_history(ctx):
     rng = ctx.rng
     cases = []
-    plan = [("state", "q", FLAG_KINDS + ["unnorm", "perm"], nn(ctx, 10, 60)), ("state", "t", FLAG_KINDS, nn(ctx, 4, 30)), ("state", "qq", ["named"], ctx.n(2, 20)),
+    plan = [("state", "q", FLAG_KINDS + ["unnorm", "perm"], nn(ctx, 10, 60)), ("state", "t", FLAG_KINDS, nn(ctx, 4, 30)), ("state", "qq", ["named"], ctx.n(2, 20)), ("state", "tq", ["named"], ctx.n(2, 12)),
             ("povm", "q", FLAG_KINDS + ["unnorm", "perm"], nn(ctx, 10, 60)), ("povm", "t", FLAG_KINDS, nn(ctx, 4, 30)), ("povm", "qq", ["named"], ctx.n(2, 20)),
             ("gate", "q", FLAG_KINDS + ["perm"], nn(ctx, 12, 80)), ("gate", "t", FLAG_KINDS, ctx.n(2, 16)),
             ("mprocess", "q", FLAG_KINDS, nn(ctx, 10, 60)), ("mprocess", "t", ["named"], ctx.n(1, 8))]
@@ -1008,7 +1094,7 @@ def sub_history(ctx):
                 steps.append([fi, "none", None, None, order[1]])
             cases.append({"type": t, "shape": shape, "basis": kinds[i % len(kinds)], "de": de, "di": di, "m": rng.randint(2, 3), "seed": rng.randrange(2 ** 31),
                           "settings0": order[0], "required": i % 3 != 2, "steps": steps, "aligned": i % 2 == 1, "null": t == "mprocess" and i % 4 >= 2,
-                          "layout": ["C", "F", "view"][i % 3], "cfg": i % 4})
+                          "layout": ["C", "F", "view", "ro"][i % 4], "cfg": i % 4, "mutate": i % 2 == 0, "fresh": i % 3 == 1})
     ctx.sample("history", cases[0]); ctx.run_cases("history", chk_history, cases)
 
 
@@ -1123,9 +1209,9 @@ def regen_glue(ctx):
 
 
 def nn(ctx, quick, thorough):
-    """case count; when the translator tie is broken (ctx.boost) the cheap sub-checks run 3x their quick size to look harder for a failing input"""
+    """case count; when the translator tie is broken (ctx.boost) the cheap sub-checks run 2x their quick size to look harder for a failing input"""
     if getattr(ctx, "boost", False) and ctx.quick:
-        return min(thorough, 3 * quick)
+        return min(thorough, 2 * quick)
     return ctx.n(quick, thorough)
 
 
@@ -1144,7 +1230,7 @@ def run(ctx):
         ok, info = False, info2
         ctx.boost = True
         ctx.note("regenerated-glue obligations (coq/gen/C01_Equiv.v) not discharged: %s" % str(info2)[:600])
-        ctx.note("translator tie broken: the state / povm / history / tp_branches sub-checks run with 3x their quick size")
+        ctx.note("translator tie broken: the state / povm / history / tp_branches sub-checks run with 2x their quick size")
     if not ok:
         ctx.discharged = min(ctx.discharged, ctx.obligations - 1)
     for name, fn in SUBS:
